@@ -34,12 +34,16 @@ pub fn constants(
             // and contribute nothing.
             rpl.backward()?
                 .into_iter()
-                .fold(Constants::new(), |c, location| {
+                .fold(None, |c: Option<Constants>, location| {
                     match constants.get(&location.into()) {
-                        Some(predecessor) => c.join(predecessor),
+                        Some(predecessor) => Some(match c {
+                            Some(c) => c.join(predecessor),
+                            None => predecessor.clone(),
+                        }),
                         None => c,
                     }
-                }),
+                })
+                .unwrap_or_else(Constants::new),
         );
     }
 
